@@ -277,6 +277,9 @@ def rule_R4(ctx, f):
                 ub = peel(d[2][2][0]) if is_call(d[2], "ToString::to_string") else None
                 okb = okb and ub is not None and is_call(ub, ["Bucket::upper_bound", "get_upper_bound"]) and peel(ub[2][0]) == peel(d[3][2][0]) and named_const(d[1], "BUCKET_LABEL")
                 okb = okb and d[2][1].startswith("<f64 as std::string::ToString>")
+                if okb:
+                    from . import hash_common as hc
+                    okb = hc.every_element(b, cb) is True
                 ctx.ob(rid, "HISTOGRAM|bucket-line", okb, "every bucket b is written as name_bucket{le=\"b.upper_bound.to_string()\"} b.cumulative_count as f64, label name BUCKET_LABEL", site=cb.span)
                 d = ds[inf[0]]
                 oki = named_const(d[1], "BUCKET_LABEL") and is_call(d[3], ["get_sample_count", "sample_count"]) and h_of(d[3][2][0]) and d[4]
@@ -322,6 +325,11 @@ def rule_R4(ctx, f):
         if ok:
             ok = named_const(q[0][1], "QUANTILE") and is_call(q[0][3], ["Quantile::value", "get_value"]) and is_call(q[0][2], "ToString::to_string") and is_call(peel(q[0][2][2][0]), ["Quantile::quantile", "get_quantile"]) \
                 and is_call(sm[0][3], ["sample_sum", "get_sample_sum"]) and not sm[0][4] and is_call(ct[0][3], ["sample_count", "get_sample_count"]) and ct[0][4]
+        if ok:
+            from . import hash_common as hc
+            qc = [c for c, d in zip(ws, ds) if d[0] is None and d[1] is not None][0]
+            eq = elem_of(peel(q[0][3][2][0]))
+            ok = bool(eq) and not [a for a in eq[1] if a not in ("into_iter", "iter")] and hc.every_element(b, qc) is True
         ctx.ob(rid, "SUMMARY|layout", ok, "a summary is quantile lines (label QUANTILE = quantile.to_string(), value), then _sum, then _count as f64", site=b.span_of_block(arms["SUMMARY"]))
 
 
